@@ -30,6 +30,26 @@ REC = {
 }
 
 
+def layout_base_local(body, pv, op):
+    """the local a (re)borrowed operand denotes: follows `&mut x`, `&x`, copies"""
+    cur = op.place.local if op.place is not None else None
+    seen = set()
+    while cur is not None and cur not in seen:
+        seen.add(cur)
+        ds = pv.defs(body).get(cur, [])
+        nxt = None
+        if len(ds) == 1 and ds[0][0] == "assign":
+            rv = ds[0][2].rv
+            if rv["k"] == "ref":
+                nxt = rv["place"].local
+            elif rv["k"] == "use" and rv["op"].place is not None:
+                nxt = rv["op"].place.local
+        if nxt is None:
+            return cur
+        cur = nxt
+    return cur
+
+
 def run(ck, prog, ctx):
     ck.rule("TABLE", "agreement of writer and reader constants (DESIGN 3.12)")
     ck.rule("ORDER", "section sequence of writer = section sequence of reader")
@@ -312,3 +332,52 @@ def run(ck, prog, ctx):
         if layout.check_record_layout(ck, "LAYOUT", prog, wb, rb, "HpoTermInternal", "parents", reader_input=2, running_base=True, size_field=False):
             n_pairs += 1
     ck.floor("LAYOUT", "record codecs with an aligned writer/reader layout", n_pairs, 3)
+
+    # ------------------------------------------------------------------ LAYOUT: section framing in Ontology::as_bytes
+    ab = prog.body("ontology::Ontology::as_bytes")
+    if ck.anchor("LAYOUT", "Ontology::as_bytes", ab):
+        W = layout.Writer(prog, ab, "Ontology")
+        pvw = Prov(prog, inline=False)
+        pvw2 = Prov(prog, inline=False, mutflow=False)
+        apps = []
+        for bi, t in ab.calls():
+            if t.callee.method in ("append", "extend", "extend_from_slice") and len(t.args) == 2 and W._is_out_ref(t.args[0]):
+                apps.append((bi, t))
+        apps.sort(key=lambda x: x[0])
+        # order by dominance (straight-line function: block order follows dominance for the appends to `res`)
+        ok_order = all(ab.dominates(apps[i][0], apps[i + 1][0]) for i in range(len(apps) - 1))
+        if not ok_order or W.out is None:
+            ck.undecided("LAYOUT", "framing", "the appends to the output of Ontology::as_bytes are not a straight-line sequence", where=ab.where())
+        else:
+            n_sec = 0
+            prev = None
+            for bi, t in apps:
+                w, val = W._width_of_appended(t.args[1])
+                src = layout_base_local(ab, pvw2, t.args[1])
+                kind = "prefix" if w is not None and layout.affine(w) == {(): 4} else "payload"
+                if kind == "payload" and prev is not None and prev[0] == "prefix":
+                    # the prefix must be len() of THIS buffer, read after its fill loop and before this append
+                    pbi, pt, pval = prev[1], prev[2], prev[3]
+                    lens = [a for a in pvw2.of_operand(ab, pval) if a[0] == "call" and a[3] == ab.id and a[1].endswith("::len")] if pval is not None else []
+                    good = False
+                    why = "the 4-byte prefix is not the length of a buffer"
+                    for a in lens:
+                        lt = ab.blocks[a[4]].term
+                        lsrc = layout_base_local(ab, pvw2, lt.args[0])
+                        if lsrc != src:
+                            why = "the 4-byte prefix is the length of ANOTHER buffer than the one appended after it"
+                            continue
+                        fills = [fbi for fbi, ft in ab.calls() if ft.callee.method in ("append", "push", "extend", "extend_from_slice") and fbi not in (bi,) and layout_base_local(ab, pvw2, ft.args[0]) == src and ab.dominates(fbi, bi) and not ab.dominates(fbi, a[4])]
+                        if not ab.dominates(a[4], bi):
+                            why = "the length is read AFTER the buffer was appended (append empties it): the prefix is 0"
+                        elif fills:
+                            why = "the buffer is still being filled (line %s) after its length was read" % ab.blocks[fills[0]].term.line
+                        else:
+                            good = True
+                    n_sec += 1
+                    ck.ob("LAYOUT", "framing/section/%d" % n_sec, good, "section %d of Ontology::as_bytes: %s" % (n_sec, "a 4-byte length prefix holding the length of the buffer that follows it" if good else why), where=ab.where(t.line))
+                elif kind == "payload" and prev is not None and prev[0] == "payload" and n_sec > 0:
+                    ck.ob("LAYOUT", "framing/section/%d" % (n_sec + 1), False, "a section payload is appended without a length prefix before it", where=ab.where(t.line))
+                    n_sec += 1
+                prev = (kind, bi, t, val)
+            ck.floor("LAYOUT", "framed sections written by Ontology::as_bytes", n_sec, 5)
